@@ -412,10 +412,10 @@ def decider_for(program):
     return d
 
 
-def rule_matches(rule, row, fname, decider):
+def rule_matches(rule, row, fname, decider, lang="python"):
     if row is None or row.get("operation") != "call_stmt":
         return False
-    if rule.get("lang", "python") not in ("python", "%"):
+    if rule.get("lang", "python") not in (lang, "%"):
         return False
     if rule.get("unit_name") and rule["unit_name"] != fname:
         return False
@@ -431,8 +431,9 @@ def judge(program, flows, rules):
     out = []
     for (s, k) in sorted(flows):
         rs, rk = by.get(s), by.get(k)
-        srules = [r for r in rules if r["kind"] == "source" and rule_matches(r, rs, program["file"], d)]
-        krules = [r for r in rules if r["kind"] == "sink" and rule_matches(r, rk, program["file"], d)]
+        lang = program.get("lang", "python")
+        srules = [r for r in rules if r["kind"] == "source" and rule_matches(r, rs, program["file"], d, lang)]
+        krules = [r for r in rules if r["kind"] == "sink" and rule_matches(r, rk, program["file"], d, lang)]
         if not srules:
             out.append(((s, k), f"statement {s} ({describe(rs)}) matches no configured source rule"))
             continue
